@@ -63,7 +63,7 @@ func TestProp(t *testing.T) {
 	}
 	env := vh.GetEnv()
 	rep := vh.NewReport("C11", "exploration")
-	rep.Rule("per stack 16 generated upstreams cover every non-empty subset of {allowed_email_addresses, allowed_email_domains, allowed_groups} (each >= 2x) with list variants (several entries, case variants, lone *, * mixed, empty-string entry, non-ASCII entry, leading-@ domain, white space); cases stride over e-mail class (24: listed/case variants/several @/empty local/empty/look-alikes/no @/trailing dot/white space/unicode/long/...) x provider group answer (7: member/other/empty/error/case variant/near name/last listed) per upstream; each case is evaluated at the real /oauth2/callback, on the next request, after validity expiry (/validate + /profile) and after token expiry (/refresh + /profile) with unchanged facts. distinct = (kinds, list variants, e-mail class, group answer, login verdict, cookie source), counted when the callback answered. The empty rule set is probed through the configuration loader (separate stream)")
+	rep.Rule("per stack 16 generated upstreams cover every non-empty subset of {allowed_email_addresses, allowed_email_domains, allowed_groups} (each >= 2x) with list variants (several entries, case variants, lone *, * mixed, empty-string entry, non-ASCII entry, leading-@ domain, white space); cases stride over e-mail class (24: listed/case variants/several @/empty local/empty/look-alikes/no @/trailing dot/white space/unicode/long/...) x provider group answer (7: member/other/empty/error/case variant/near name/last listed) per upstream; each case is evaluated at the real /oauth2/callback, on the next request, after validity expiry (/validate + /profile) and after token expiry (/refresh + /profile) with unchanged facts; a second stream (c11-moved: upstreams listing 2-3 groups, masks group / address+group / domain+group / all) CHANGES the provider's group answer between the moments (login: first listed / last listed / both / unlisted / none; revalidation and refresh independently: first / last / both / unlisted / none / provider error; refresh from the login cookie or from the cookie revalidation set) and judges every moment against the reference with the facts of that moment. distinct = (kinds, list variants, e-mail class, group answer, login verdict, cookie source), counted when the callback answered. The empty rule set is probed through the configuration loader (separate stream)")
 	rep.Assume("the fake authenticator answers exactly as scripted (redeem/validate/refresh/profile keyed by per-case tokens)")
 	rep.Assume("virtual time = shifting the deadlines inside the sealed cookie with the proxy's own cipher (DESIGN 2.4)")
 	rep.Assume("for sessions minted by the harness (login refused) group membership on a request with no check due is 'as of the last check': not judged; a session with an empty e-mail cannot be issued (redeem refuses it): not judged where no e-mail rule is configured")
@@ -83,6 +83,15 @@ func TestProp(t *testing.T) {
 		}
 		vh.ForEach(nConfigs, 8, onlyCfg, func(ci int) { runConfig(rep, env, ci, perConfig, only) })
 	}
+	// changing facts: the provider's group answer differs between the moments (moved_test.go)
+	perMoved := env.Pick(64, 160)
+	if onlyM, skipM := env.Only("c11-moved"); !skipM {
+		onlyCfg := -1
+		if onlyM >= 0 {
+			onlyCfg = onlyM / perMoved
+		}
+		vh.ForEach(nConfigs, 8, onlyCfg, func(ci int) { runMovedConfig(rep, env, ci, perMoved, onlyM) })
+	}
 	onlyE, skipE := env.Only("c11-empty")
 	if !skipE && only < 0 {
 		nEmpty := env.Pick(10, 40)
@@ -99,6 +108,11 @@ func TestProp(t *testing.T) {
 	}
 	for m := 1; m <= 7; m++ {
 		floors["kinds_"+maskName(m)] = 10
+	}
+	for _, site := range []string{"revalidation", "refresh"} {
+		for _, f := range []string{"moved-to-other-listed-group", "joined-listed-group", "left-every-listed-group", "listed-groups-changed", "unchanged"} {
+			floors["moved_judged_"+site+"_"+f] = 8
+		}
 	}
 	for k, v := range floors {
 		if env.Replay != "" {
